@@ -69,9 +69,13 @@ void ezc3d::DataNS::AnalogsNS::Analogs::subframe(const ezc3d::DataNS::AnalogsNS:
     if (idx == SIZE_MAX)
         _subframe.push_back(subframe);
     else{
-        if (idx >= nbSubframes())
+        if (idx >= nbSubframes()){
+            // the argument may be an element of this very container, which resize() moves
+            const ezc3d::DataNS::AnalogsNS::SubFrame copy(subframe);
             _subframe.resize(idx+1);
-        _subframe[idx] = subframe;
+            _subframe[idx] = copy;
+        } else
+            _subframe[idx] = subframe;
     }
 }
 
